@@ -20,6 +20,8 @@ use trust_runtime::value::{Duration, Value};
 use trust_runtime::watchdog::{FaultPolicy, WatchdogAction, WatchdogPolicy};
 
 const IMG: usize = 8;
+/// microseconds per model tick of the script being run (set by `setup`)
+static UNIT_US: std::sync::atomic::AtomicI64 = std::sync::atomic::AtomicI64::new(1000);
 const TYPES: [(&str, &[&str]); 5] = [
     ("X", &["BOOL"]),
     ("B", &["BYTE", "SINT", "USINT"]),
@@ -274,8 +276,11 @@ fn gen_script(rng: &mut StdRng, always_restart: bool, fbmode: bool) -> J {
         sinit.insert(s.to_string(), json!(restarts && rng.gen_bool(0.3)));
     }
     let access: Vec<usize> = (0..np).filter(|_| restarts && rng.gen_bool(0.5)).collect();
+    // the length of one model tick in microseconds: mostly a millisecond, sometimes a fraction of one, so that
+    // intervals and due times do not sit on whole milliseconds (the model counts ticks either way)
+    let unit_us = [1000i64, 1000, 1000, 250, 100, 37][rng.gen_range(0..6)];
     let cfg = json!({"tasks": tasks, "programs": programs, "fbs": fbs, "bindings": bindings, "drivers": drivers,
-                     "policy": policy, "wd": wd, "safe": safe, "singles": singles, "imgLen": IMG,
+                     "policy": policy, "wd": wd, "safe": safe, "singles": singles, "imgLen": IMG, "unitUs": unit_us,
                      "counters": counters, "sinit": sinit, "access": access, "vars0": vars0});
     let mut steps = Vec::new();
     let dbg_run = rng.gen_bool(0.5);
@@ -389,7 +394,8 @@ pub fn render_source(cfg: &J) -> String {
         if t["single"] != "" {
             parts.push(format!("SINGLE := {}", t["single"].as_str().unwrap()));
         }
-        parts.push(format!("INTERVAL := T#{}ms", t["interval"]));
+        let unit = cfg["unitUs"].as_i64().unwrap_or(1000);
+        parts.push(if unit == 1000 { format!("INTERVAL := T#{}ms", t["interval"]) } else { format!("INTERVAL := T#{}us", t["interval"].as_i64().unwrap_or(0) * unit) });
         parts.push(format!("PRIORITY := {}", t["prio"]));
         src.push_str(&format!("TASK {} ({});\n", t["name"].as_str().unwrap(), parts.join(", ")));
     }
@@ -610,6 +616,7 @@ fn images(h: &TestHarness) -> J {
 
 fn setup(cfg: &J, src: &str, sh: &Arc<Mutex<Shared>>, retain_path: &std::path::Path) -> Result<TestHarness, String> {
     let mut h = TestHarness::from_source(src).map_err(|e| e.to_string())?;
+    UNIT_US.store(cfg["unitUs"].as_i64().unwrap_or(1000), std::sync::atomic::Ordering::SeqCst);
     let img = cfg["imgLen"].as_u64().unwrap() as usize;
     h.runtime_mut().io_mut().resize(img, img, img);
     for (d, dr) in cfg["drivers"].as_array().unwrap().iter().enumerate() {
@@ -691,7 +698,7 @@ fn project(h: &TestHarness, cfg: &J) -> J {
     }
     json!({"over": over, "img": images(h), "vars": vars, "tags": tags, "ctr": ctr, "ctags": ctags, "acc": acc,
            "faulted": h.runtime().faulted(), "frames": h.runtime().storage().frames().len(),
-           "now": h.runtime().current_time().as_nanos() / 1_000_000})
+           "now": h.runtime().current_time().as_nanos() / (UNIT_US.load(std::sync::atomic::Ordering::SeqCst) * 1000)})
 }
 fn merge(mut a: J, b: J) -> J {
     for (k, v) in b.as_object().unwrap() {
@@ -724,7 +731,7 @@ fn run_script(sc: &J, si: usize, o: &mut Out) -> bool {
     for st in sc["steps"].as_array().unwrap() {
         match st["a"].as_str().unwrap() {
             "Advance" => {
-                h.advance_time(Duration::from_millis(st["dt"].as_i64().unwrap()));
+                h.advance_time(Duration::from_micros(st["dt"].as_i64().unwrap() * UNIT_US.load(std::sync::atomic::Ordering::SeqCst)));
                 o.line(st);
             }
             "SetSingle" => {
